@@ -11,6 +11,11 @@
 //	{"id":1,"nr":2,"nc":2,"ef":true,"input":[{"typ":3,"key":"k","value":"v1"},{"typ":1,"key":"k"}],
 //	 "steps":[[p,alt,fail],...]}                       explicit schedule (replay, corpus, Coq witnesses)
 //	{... "walk":{"seed":7,"n":300,"pcrash":0.02,"pcrashp":0.2,"pwrong":0.1}}   seeded random walk
+//	{... "script":[{"op":"run","p":2,"until":"rcvMsg","min":1,"max":12},{"op":"step","p":1,"alt":-1,"fail":1}, ...]}
+//	     scenario script (runs after "steps", before "walk"): "run" = process p takes attempts (enabled-looking branch,
+//	     no crash) until its pc is `until` (after at least `min` attempts), it blocks, or `max` attempts;
+//	     "step" = one attempt, alt -1 = the branch that looks enabled
+//	{... "walk":{..., "frozen":[4],"frozen_n":80}}     processes that take no step during the first frozen_n walk steps
 //
 // One step = process p (1..nr replicas, nr+1..nr+nc clients) runs ONE attempt of its current label;
 // alt = branch dictated for the label's first `either`, fail = branch dictated for the mayFail either.
@@ -45,16 +50,29 @@ type walkParams struct {
 	PCrash  float64 `json:"pcrash"`  // crash probability at an ordinary mayFail point
 	PCrashP float64 `json:"pcrashp"` // crash probability of the current primary inside replication / sync
 	PWrong  float64 `json:"pwrong"`  // probability of dictating the branch that looks disabled
+	Frozen  []int   `json:"frozen"`  // slow processes: not scheduled during the first FrozenN steps
+	FrozenN int     `json:"frozen_n"`
+}
+
+type scriptOp struct {
+	Op    string `json:"op"`
+	P     int    `json:"p"`
+	Until string `json:"until"`
+	Min   int    `json:"min"`
+	Max   int    `json:"max"`
+	Alt   int    `json:"alt"`
+	Fail  int    `json:"fail"`
 }
 
 type kase struct {
-	ID    int         `json:"id"`
-	NR    int         `json:"nr"`
-	NC    int         `json:"nc"`
-	EF    bool        `json:"ef"`
-	Input []inputMsg  `json:"input"`
-	Steps [][]int     `json:"steps"`
-	Walk  *walkParams `json:"walk"`
+	ID     int         `json:"id"`
+	NR     int         `json:"nr"`
+	NC     int         `json:"nc"`
+	EF     bool        `json:"ef"`
+	Input  []inputMsg  `json:"input"`
+	Steps  [][]int     `json:"steps"`
+	Script []scriptOp  `json:"script"`
+	Walk   *walkParams `json:"walk"`
 }
 
 type stepOut struct {
@@ -398,6 +416,73 @@ func (s *system) queueLen(p, typ int) int {
 	return l.ApplyFunction(tla.MakeString("queue")).AsTuple().Len()
 }
 
+// the branch of the label's either that looks enabled in the current state
+func (s *system) autoAlt(p int) int {
+	lbl := label(s.sys.PC(procName(p)))
+	alt := 0
+	switch lbl {
+	case "sndSyncReqLoop", "sndReplicaReqLoop":
+		idx, _ := s.localInt(p, "AReplica.idx")
+		if s.fdOf(idx) {
+			alt = 1
+		}
+	case "rcvSyncRespLoop", "rcvReplicaRespLoop", "rcvResp":
+		if s.queueLen(p, 2) == 0 {
+			alt = 1
+		}
+	case "handleBackup":
+		if v, ok := s.sys.Local(procName(p), "AReplica.req"); ok && v.IsFunction() {
+			if s.fdOf(int(v.ApplyFunction(tla.MakeString("from")).AsNumber())) {
+				alt = 1
+			}
+		}
+	case "sndReq":
+		if s.fdOf(s.leader()) {
+			alt = 1
+		}
+	}
+	return alt
+}
+
+func (s *system) live(p int) bool {
+	pc := label(s.sys.PC(procName(p)))
+	return pc != "" && pc != "Done"
+}
+
+func (s *system) runScript(ops []scriptOp) ([]stepOut, error) {
+	var out []stepOut
+	for _, op := range ops {
+		if op.P < 1 || op.P > s.k.NR+s.k.NC {
+			return out, fmt.Errorf("bad script op %+v", op)
+		}
+		switch op.Op {
+		case "step":
+			if !s.live(op.P) {
+				continue
+			}
+			alt := op.Alt
+			if alt < 0 {
+				alt = s.autoAlt(op.P)
+			}
+			out = append(out, s.step(op.P, alt, op.Fail))
+		case "run":
+			for n := 0; n < op.Max && s.live(op.P); n++ {
+				if n >= op.Min && label(s.sys.PC(procName(op.P))) == op.Until {
+					break
+				}
+				so := s.step(op.P, s.autoAlt(op.P), 0)
+				out = append(out, so)
+				if so.Out != "commit" {
+					break
+				}
+			}
+		default:
+			return out, fmt.Errorf("bad script op %+v", op)
+		}
+	}
+	return out, nil
+}
+
 func (s *system) walk(w walkParams) []stepOut {
 	rng := rand.New(rand.NewSource(w.Seed))
 	var out []stepOut
@@ -405,6 +490,10 @@ func (s *system) walk(w walkParams) []stepOut {
 	blocked := map[int]string{}
 	speed := map[int]int{}
 	quiet := 0
+	frozen := map[int]bool{}
+	for _, p := range w.Frozen {
+		frozen[p] = true
+	}
 	for i := 0; i < w.N; i++ {
 		stateText := steplib.Text(s.sys.State.Snapshot())
 		if i%25 == 0 {
@@ -419,6 +508,9 @@ func (s *system) walk(w walkParams) []stepOut {
 		for p := 1; p <= nn; p++ {
 			pc := label(s.sys.PC(procName(p)))
 			if pc == "" || pc == "Done" {
+				continue
+			}
+			if i < w.FrozenN && frozen[p] {
 				continue
 			}
 			wt := speed[p]
@@ -456,29 +548,7 @@ func (s *system) walk(w walkParams) []stepOut {
 			r -= wts[j]
 		}
 		lbl := label(s.sys.PC(procName(p)))
-		// the branch that looks enabled
-		alt := 0
-		switch lbl {
-		case "sndSyncReqLoop", "sndReplicaReqLoop":
-			idx, _ := s.localInt(p, "AReplica.idx")
-			if s.fdOf(idx) {
-				alt = 1
-			}
-		case "rcvSyncRespLoop", "rcvReplicaRespLoop", "rcvResp":
-			if s.queueLen(p, 2) == 0 {
-				alt = 1
-			}
-		case "handleBackup":
-			if v, ok := s.sys.Local(procName(p), "AReplica.req"); ok && v.IsFunction() {
-				if s.fdOf(int(v.ApplyFunction(tla.MakeString("from")).AsNumber())) {
-					alt = 1
-				}
-			}
-		case "sndReq":
-			if s.fdOf(s.leader()) {
-				alt = 1
-			}
-		}
+		alt := s.autoAlt(p)
 		if rng.Float64() < w.PWrong {
 			alt = 1 - alt
 		}
@@ -544,7 +614,15 @@ func runCase(k kase) (res result) {
 		}
 		res.Steps = append(res.Steps, s.step(st[0], st[1], st[2]))
 	}
-	// an explicit prefix may be followed by a random walk
+	if len(k.Script) > 0 {
+		so, err := s.runScript(k.Script)
+		res.Steps = append(res.Steps, so...)
+		if err != nil {
+			res.Err = err.Error()
+			return
+		}
+	}
+	// an explicit prefix / a script may be followed by a random walk
 	if k.Walk != nil {
 		res.Steps = append(res.Steps, s.walk(*k.Walk)...)
 	}
